@@ -3,6 +3,7 @@
 JSON program:
   {"tempos": [q..], "bodies": [[act..]..], "nconds": n, "nflows": n, "mseed": int, "tail": q}
   act = ["Y", q] | ["S", lat, [elem..]] | ["P", b, clock] | ["F", b] | ["T", i, q] | ["seed", s] | ["D", req]
+      | ["SB", k]   (send the SAME nested list object shared[k] = [lat, [elem..]] again: a template kept in a variable)
       | ["W", c] | ["sig", c] | ["test", c, bool] | ["fget", f] | ["fset", f, v] | ["pause", b] | ["resume", b] | ["R"]
   elem, lat, clock, q as in c05_kscript.py.
 The whole program is Routine(body 0).play(SystemClock); the root creates the TempoClocks when it starts.
@@ -25,6 +26,7 @@ from sc3.base.stream import Routine, Condition, FlowVar
 from sc3.base.clock import SystemClock, AppClock, TempoClock
 from sc3.base.netaddr import NetAddr
 import sc3.base.builtins as bi
+from props._c10seed import seed_value, seed_code, main_code
 
 CH = [10, 20, 30, 40, 50]
 # request number -> (the call on the library, the same request on a plain random.Random: independent reference)
@@ -75,7 +77,10 @@ class XRun:
         self.flows = [FlowVar() for _ in range(prog['nflows'])]
         main._m_rgen.seed(prog['mseed'])
         self.gens = [main._m_rgen]  # generator objects in order of creation (kept alive)
-        self.gen_seed = [prog['mseed']]
+        self.gen_seed = [main_code(prog['mseed'])]     # the model's name of the seed
+        self.gen_seedval = [prog['mseed']]             # the Python value given to the library
+        # bundle templates kept in variables: the nested list OBJECTS are built once and sent again and again
+        self.shared = [(lat_of(t[0]), self.build_elems(t[1])) for t in prog.get('shared', [])]
         self.gen_hist = [[]]
         self.gen_vals = [[]]
         self.addr = NetAddr('127.0.0.1', 57110)
@@ -122,16 +127,20 @@ class XRun:
                 return i
         self.gens.append(obj)           # an object the harness did not see being created
         self.gen_seed.append(None)
+        self.gen_seedval.append(None)
         self.gen_hist.append([])
         self.gen_vals.append([])
         return len(self.gens) - 1
 
     # ------------------------------------------------------------ actions
-    def do_send(self, org, lat, es):
+    def do_send(self, org, lat, es, shared=None):
         T = main.current_tt._m_seconds
         self.last_dgram = None
         try:
-            self.addr.send_bundle(lat_of(lat), *self.build_elems(es))
+            if shared is not None:
+                self.addr.send_bundle(shared[0], *shared[1])      # the very same element lists as last time
+            else:
+                self.addr.send_bundle(lat_of(lat), *self.build_elems(es))
             ok = True
         except Exception:
             ok = False
@@ -179,6 +188,11 @@ class XRun:
         kind = a[0]
         if kind == 'S':
             return self.do_send(org, a[1], a[2])
+        if kind == 'SB':
+            if a[1] >= len(self.shared):
+                return False
+            t = self.prog['shared'][a[1]]
+            return self.do_send(org, t[0], t[1], shared=self.shared[a[1]])
         if kind == 'P':
             if a[1] >= len(self.prog['bodies']):
                 return False
@@ -197,9 +211,10 @@ class XRun:
                 return False
             return self.do_tempo(org, a[1], a[2])
         if kind == 'seed':
-            rout.rand_seed = int(a[1])
+            rout.rand_seed = seed_value(a[1])
             self.gens.append(rout._rgen)
-            self.gen_seed.append(int(a[1]))
+            self.gen_seed.append(seed_code(a[1]))
+            self.gen_seedval.append(seed_value(a[1]))
             self.gen_hist.append([])
             self.gen_vals.append([])
             return True
@@ -298,16 +313,16 @@ class XRun:
     def table(self):
         """reference table for the model: (seed, requests before, request, value computed on a plain random.Random)"""
         tab, bad = [], []
-        for g, (seed, hist, got) in enumerate(zip(self.gen_seed, self.gen_hist, self.gen_vals)):
+        for g, (seed, sval, hist, got) in enumerate(zip(self.gen_seed, self.gen_seedval, self.gen_hist, self.gen_vals)):
             if seed is None:
                 bad.append('generator object %d was not created by a seed action' % g)
                 continue
-            ref = reference(seed, hist)
+            ref = reference(sval, hist)
             for j, r in enumerate(hist):
                 tab.append([seed, hist[:j], r, ref[j]])
             if ref != got:
-                bad.append('generator object %d seeded %d served %s for the requests %s; random.Random(%d) gives %s'
-                           % (g, seed, got, hist, seed, ref))
+                bad.append('generator object %d seeded %r served %s for the requests %s; random.Random(%r) gives %s'
+                           % (g, sval, got, hist, sval, ref))
         return tab, bad
 
     def result(self, extra):
@@ -318,7 +333,7 @@ class XRun:
         tab, bad = self.table()
         out = {'events': self.events, 'vals': self.vals, 'paths': self.paths, 'errors': self.errors,
                'table': tab, 'stream_errors': bad, 't0': fr(self.t0) if self.t0 is not None else None,
-               'gen_seed': self.gen_seed, 'gen_hist': self.gen_hist, 'gen_vals': self.gen_vals}
+               'gen_seed': self.gen_seed, 'gen_seedval': [repr(x) for x in self.gen_seedval], 'gen_hist': self.gen_hist, 'gen_vals': self.gen_vals}
         out.update(extra)
         return out
 
